@@ -60,6 +60,7 @@ type OpInst struct {
 	PadTo     int
 	Barrier   int
 	BGroup    string
+	Head      int      // -head N: read only the first N bytes of each input, then close it
 	TouchIn   bool     // -touchin: the command re-writes its first input in place (same bytes, new mtime), like sort -o / an index update
 	BgTail    bool     // -bg: the last part of the first output is written by a child that outlives the command
 	Notes     []string // -note words: recorded, no influence on the result
@@ -608,15 +609,30 @@ func (sh *Shell) openFifoWrite(n *Inode, path string) {
 
 // readFifo: open, read until EOF, close.
 func (sh *Shell) readFifo(n *Inode, path string) ([]byte, bool) {
+	return sh.readFifoN(n, path, 0)
+}
+
+// readFifoN: like readFifo, but with limit > 0 the reader closes the FIFO as
+// soon as it has limit bytes (head -c): what is still in the pipe is
+// discarded, and a writer that has more to write gets EPIPE / SIGPIPE.
+func (sh *Shell) readFifoN(n *Inode, path string, limit int) ([]byte, bool) {
 	s := sh.s
 	p := sh.pipeOf(n)
 	sh.openFifoRead(n, path)
 	var data []byte
 	for {
 		s.Pre("fifo-read", n.Ino, path)
+		if limit > 0 && len(data) >= limit {
+			s.Probe("fifo-reader-closes-early")
+			break
+		}
 		if len(p.buf) > 0 {
-			data = append(data, p.buf...)
-			p.buf = nil
+			k := len(p.buf)
+			if limit > 0 && k > limit-len(data) {
+				k = limit - len(data)
+			}
+			data = append(data, p.buf[:k]...)
+			p.buf = p.buf[k:]
 			sh.wakePipe(p)
 			continue
 		}
@@ -734,6 +750,8 @@ func (sh *Shell) parseOp(r *shellRun, w []string) *OpInst {
 			o.BgTail = true
 		case "-touchin":
 			o.TouchIn = true
+		case "-head":
+			o.Head, _ = strconv.Atoi(need())
 		case "-note":
 			// (the word may be empty and vanish: empty sub-stream)
 			if i+1 < len(w) && !strings.HasPrefix(w[i+1], "-") {
@@ -857,8 +875,10 @@ func (sh *Shell) runOp(r *shellRun, w []string) (int, string) {
 			return sh.finish(o, 1, "")
 		}
 		if n.Kind == KFifo {
-			data, _ := sh.readFifo(n, p)
+			data, _ := sh.readFifoN(n, p, o.Head)
 			o.InData = append(o.InData, data)
+		} else if o.Head > 0 && len(n.Data) > o.Head {
+			o.InData = append(o.InData, n.Data[:o.Head])
 		} else {
 			o.InData = append(o.InData, n.Data)
 		}
@@ -902,7 +922,11 @@ func (sh *Shell) runOp(r *shellRun, w []string) (int, string) {
 				data = data[:len(data)/2]
 			}
 			if sig := sh.writeFifo(n, p, data, o.Chunks); sig != "" {
-				return sh.finish(o, -1, sig)
+				// the command dies of SIGPIPE; the bash that ran it lives on and
+				// reports 128+13
+				s.Fault("broken-pipe")
+				r.errf("op %s: %s: Broken pipe", o.Name, p)
+				return sh.finish(o, 141, "")
 			}
 			if partialFifo {
 				r.errf("op %s: injected failure after partial write to %s", o.Name, p)
